@@ -227,6 +227,11 @@ func (r *Rec) UnmarshalBinary(b []byte) error {
 
 func recMergeSum(v, d *Rec) *Rec { return &Rec{N: v.N + d.N, S: v.S + d.S} }
 
+func recMergeSumYield(v, d *Rec) *Rec {
+	mergeYield() // the decoded inputs belong to this call; a library that shares them across calls is caught here
+	return &Rec{N: v.N + d.N, S: v.S + d.S}
+}
+
 func recBytes(n uint32, s string) []byte {
 	b, _ := (&Rec{N: n, S: s}).MarshalBinary()
 	return b
@@ -281,7 +286,25 @@ type typedFns[T number] struct {
 	max    func(t *column.Txn, name string) (T, bool)
 }
 
-func affine[T number](v, d T) T { return v*3 + d }
+// affine is the order-sensitive merge function handed to the library (it yields to the
+// scheduler, see mergeYield); affinePure is the same arithmetic for the model.
+func affine[T number](v, d T) T {
+	mergeYield()
+	return v*3 + d
+}
+
+func affinePure[T number](v, d T) T { return v*3 + d }
+
+// mergeYield is a harness yield point inside the user-supplied merge functions: the
+// library calls them from a column's Apply, i.e. while the committing thread holds the
+// block's write latch, which gives the scheduler a pre-emption point inside Apply without
+// a repo hook. Only enabled in worlds where no column can grow meanwhile (a thread parked
+// here holds the column's read lock).
+func mergeYield() {
+	if w := curWorld; w != nil && w.mergeYields && w.sim != nil && w.sim.cur != nil {
+		w.sim.Yield(ptInMerge)
+	}
+}
 
 func mkNum[T number](k Kind, bits int, from func(uint64) T, to func(T) uint64, f typedFns[T]) *numKind {
 	return &numKind{
@@ -309,7 +332,7 @@ func mkNum[T number](k Kind, bits int, from func(uint64) T, to func(T) uint64, f
 		max:   func(t *column.Txn, n string) (uint64, bool) { v, ok := f.max(t, n); return to(v), ok },
 		mmerge: func(m string, cur, delta uint64) uint64 {
 			if m == "affine" {
-				return to(affine(from(cur), from(delta)))
+				return to(affinePure(from(cur), from(delta)))
 			}
 			return to(from(cur) + from(delta))
 		},
@@ -494,7 +517,7 @@ func makeColumn(c ColSpec) column.Column {
 		return column.ForBool()
 	case KString:
 		if c.Merge == "concat" {
-			return column.ForString(column.WithMerge(func(v, d string) string { return v + d }))
+			return column.ForString(column.WithMerge(func(v, d string) string { mergeYield(); return v + d }))
 		}
 		return column.ForString()
 	case KEnum:
@@ -503,7 +526,7 @@ func makeColumn(c ColSpec) column.Column {
 		return column.ForKey()
 	case KRecord:
 		if c.Merge == "sum" {
-			return column.ForRecord(func() *Rec { return new(Rec) }, column.WithMerge(recMergeSum))
+			return column.ForRecord(func() *Rec { return new(Rec) }, column.WithMerge(recMergeSumYield))
 		}
 		return column.ForRecord(func() *Rec { return new(Rec) })
 	}
